@@ -113,9 +113,8 @@ impl<const L: usize> Live<L> {
                 self.book
                     .save_json(&path, mode == "pretty")
                     .map_err(|e| e.to_string())?;
-                let b = OrderBook::<L>::load_json(&path).map_err(|e| e.to_string())?;
-                let _ = std::fs::remove_file(&path);
-                b
+                // the snapshot file is deliberately left in place: the next save overwrites it
+                OrderBook::<L>::load_json(&path).map_err(|e| e.to_string())?
             }
             _ => return Err("bad mode".into()),
         };
